@@ -219,6 +219,8 @@ func members(vs []int, mask int, what string) *mc.Failure {
 
 // ---- mutation histories (E1) ----
 
+var fromEmpty int64
+
 type mop struct {
 	K     string `json:"k"` // add addall remove removeall clear
 	Items []int  `json:"items,omitempty"`
@@ -250,6 +252,9 @@ func (m *minst) Key() string { return fmt.Sprintf("%v/%b", m.s == nil, m.ref) }
 func (m *minst) Apply(o mop, check bool) *mc.Failure {
 	var ret mapset.Set[int]
 	wasNil := m.s == nil
+	if check && len(m.s) == 0 {
+		atomic.AddInt64(&fromEmpty, 1)
+	}
 	switch o.K {
 	case "add":
 		ret = (&m.s).Add(o.Items...)
@@ -389,6 +394,8 @@ func main() {
 			Name: "mutations",
 			Explore: func(r *mc.Run) {
 				makeBFS(&pops).Run(r)
+				// non-trivial: transitions out of a nil or empty receiver (lazy allocation, early exits)
+				r.AddEval(0, 0, 0, atomic.LoadInt64(&fromEmpty))
 				r.Count("pop_probes", pops)
 				r.Rule("BFS to closure over Add/Remove (all item lists up to 2), AddAll/RemoveAll (all 9 operands), Clear from every operand as the initial receiver incl. nil; Pop probed on a copy of every state")
 			},
